@@ -312,16 +312,11 @@ theorem special_gate (s : Settings) (prev : Conf) :
 
 /-! ### malformed settings (shared with C01): user-supplied patterns reach regexp.MustCompile -/
 
-/-- the dynamic MustCompile sites are exactly the reviewed ones; those in global_conf.go compile
-    user-supplied ignore patterns and panic on a malformed one (known finding C17-K4 / C01-K4). -/
+/-- no regexp.MustCompile call takes a pattern that is not a literal or built from literals and
+    regexp.QuoteMeta(…): a configuration value can no longer make the server panic while compiling
+    a pattern (before the repair a72bfd6 six such sites existed: former finding C17-K4). -/
 theorem mustcompile_sites :
-    Gen.mustCompileSites.filter (·.2.2 == "dynamic") = [
-      ("check/common/global_conf.go", "ReadConfig", "dynamic"),
-      ("check/common/global_conf.go", "ReadConfig", "dynamic"),
-      ("check/common/global_conf.go", "handleNotJSONCheckFlag", "dynamic"),
-      ("stringutil/util.go", "GetOpenFileStr", "dynamic"),
-      ("stringutil/util.go", "GetOpenFileStr", "dynamic"),
-      ("textdocument_complete.go", "judgeCompeleteFile", "dynamic")] := by decide
+    Gen.mustCompileSites.filter (·.2.2 == "dynamic") = [] := by decide
 #print axioms mustcompile_sites
 
 /-! ### non-vacuity -/
